@@ -42,7 +42,7 @@ Fixpoint on_records (rs : list record) (p : prober) : prober * list eff :=
 
 Definition prober_handle (now : Z) (p : prober) (ev : event unit) : prober * list eff :=
   match ev with
-  | EvMsg m => if pb_confirmed p || negb (m_response m) then (p, []) else on_records (m_records m) p
+  | EvMsg m => if prober_ignore_message (pb_confirmed p) (m_response m) then (p, []) else on_records (m_records m) p
   | EvTimer _ => (mkProber (pb_base p) (pb_tail p) (pb_proposed p) (pb_suffix p) true,
                   [ESig OBJ SIG_nameConfirmed (PBytes (r_name (pb_proposed p)))])
   | EvApi _ => (p, [])
